@@ -500,6 +500,10 @@ def generate_c08_template(seed, tier):
     scn = generate_c14(rng.H(seed, 'c08tpl'), tier)
     r = rng.stream(seed, 'workload')
     scn.update({'prop': 'C08', 'seed': seed, 'template': True, 'auto': False, 'probe_before_build': False, 'build_rule': 1000})
+    if scn.get('common', 0) > 60:
+        # the convergence oracle compares twins at 1e-9; with cond(S) of 1e6 and more the distances cancel to 1e-8 relative between two batch
+        # partitions of the same rows (rounding, not a defect): the strongly ill-conditioned lifecycles belong to C14's own tolerance only
+        del scn['common']
     if scn['style'] == 'auto':
         scn['style'] = 'range'
     if len(scn['classes']) > 12:
